@@ -41,7 +41,7 @@ func strFromIndex(idx int64, alphabet []string, n int) string {
 }
 
 func runC11(e *Env) {
-	e.Rule = "(a) totality + (b) reflexivity: ALL strings up to length 5 (quick) / 7 (thorough) over {'/',' ','.','a','b','\\t'} as registered path, group prefix and request path, both StrictLastSlash settings: GET/Group/Match/ServeHTTP never panic and a static route registered as P is found by a request for the very same P; (c) equivalence on the unambiguous sub-language ws* '/'* core '/'* ws*: sampled pairs (P,Q) incl. group prefixes: route(P) is reached by Q iff N(P)==N(Q), Route.Path()==N(P), strict mode distinguishes '/a' from '/a/'; (d) path source: request targets with %41/%2F/%20 escapes parsed like a server does, routes registered under the decoded and under the escaped spelling + a dynamic route: default router matches URL.Path, UseEncodedPath matches URL.EscapedPath(). Non-trivial: string with white space or repeated/trailing slashes or an escape; distinct by string (pair)."
+	e.Rule = "(a) totality + (b) reflexivity: ALL strings up to length 5 (quick) / 7 (thorough) over {'/',' ','.','a','b','\\t'} as registered path, group prefix (top level and nested inside another group) and request path (GET and HEAD), both StrictLastSlash settings: GET/Group/Match/ServeHTTP never panic and a static route registered as P is found by a request for the very same P; (c) equivalence on the unambiguous sub-language ws* '/'* core '/'* ws*: sampled pairs (P,Q) incl. group prefixes: route(P) is reached by Q iff N(P)==N(Q), Route.Path()==N(P), strict mode distinguishes '/a' from '/a/'; (d) path source: request targets with %41/%2F/%20 escapes parsed like a server does, routes registered under the decoded and under the escaped spelling + a dynamic route: default router matches URL.Path, UseEncodedPath matches URL.EscapedPath(). Non-trivial: string with white space or repeated/trailing slashes or an escape; distinct by string (pair)."
 	e.Assumptions = []string{
 		"strings where white space touches the stripped slashes (e.g. 'a /') are only checked for totality and reflexivity: the documented rule does not fix their normal form",
 		"only ASCII white space is generated",
@@ -111,6 +111,29 @@ func runC11(e *Env) {
 					return
 				}
 				t.Count("group_prefix.checked", 1)
+			}
+			// as the prefix of a NESTED group: every level is normalised on its own
+			r4 := rux.New(c11Opts(strict, false)...)
+			var inner2 *rux.Route
+			if pv, panicked := catch(func() {
+				r4.Group("/v1", func() { r4.Group(P, func() { inner2 = r4.GET("/x", namedHandler("x")) }) })
+			}); panicked {
+				t.Fail("group-panics", "Group(\"/v1\"){Group(%q, ...)} (strict=%v) panicked: %v", P, strict, pv)
+				return
+			}
+			if np, ok := RefNormalize(P, false); ok && !strict && np != "/" {
+				// (a root-like inner prefix is left out: what "/v1" + "/" + "/x" should collapse to is not documented)
+				want, _ := RefNormalize("/v1"+np+"/x", false)
+				if inner2.Path() != want {
+					t.Fail("nested-group-prefix-normal-form", "Group(\"/v1\"){Group(%q){GET(\"/x\")}}: route path is %q, expected %q", P, inner2.Path(), want)
+					return
+				}
+				t.Count("group_prefix.nested_checked", 1)
+			}
+			// HEAD falls back to the GET route: through the same normalisation
+			if hr, _, _ := r.Match("HEAD", P); hr != route {
+				t.Fail("head-fallback-not-normalised", "a GET route registered as %q (strict=%v) is found by GET %q but not by HEAD %q", P, strict, P, P)
+				return
 			}
 			// a request for P on a router that does not know it must simply not be found
 			r3 := rux.New(c11Opts(strict, false)...)
@@ -207,7 +230,11 @@ func runC11(e *Env) {
 			t.Fail("registered-normal-form", "route registered as %q (group %q, strict=%v) is stored as %q, its normal form is %q", P, G, strict, route.Path(), wantPath)
 			return
 		}
-		got, _, _ := router.Match("GET", Q)
+		reqMethod := "GET"
+		if chance(r, 1, 3) {
+			reqMethod = "HEAD" // served by the GET route through the HEAD fallback: same normalisation
+		}
+		got, _, _ := router.Match(reqMethod, Q)
 		reached := got == route
 		should := nq == wantPath
 		t.Count("equivalence.pairs", 1)
@@ -323,6 +350,7 @@ func runC11(e *Env) {
 	})
 	e.Require("reflexive.checked", 5000)
 	e.Require("group_prefix.checked", 1000)
+	e.Require("group_prefix.nested_checked", 1000)
 	e.Require("equivalence.pairs", 5000)
 	e.Require("equivalence.pairs_equal", 1000)
 	e.Require("pathsource.spellings_differ", 1000)
